@@ -163,6 +163,21 @@ def one_case(ctx, seed, idx):
                 decoy = I.DBusInterface(dname, I.Method('Alpha', 'i', 's'), I.Signal('Beta', 'u'),
                                         I.Property('Gamma', 'i'), I.Method('OnlyInDecoy'))
             decoy_before = describe(decoy)
+        if r.random() < 0.4:
+            # an earlier reply that was cut short or garbled (a peer died mid-answer) must not influence this parse
+            for _ in range(r.choice([1, 1, 2])):
+                cut = r.randint(10, max(11, len(xml_text) - 1))
+                bad = xml_text[:cut] if r.random() < 0.7 else xml_text[:cut] + '&<' + xml_text[cut:]
+                before_known = dict(I.DBusInterface.knownInterfaces)
+                try:
+                    X.getInterfacesFromXML(bad, r.random() < 0.3)
+                except Exception:
+                    ctx.count('malformed_xml_rejected')
+                else:
+                    ctx.count('malformed_xml_accepted')
+                # what a failed parse may have registered is not this case's subject: restore the registry
+                I.DBusInterface.knownInterfaces.clear()
+                I.DBusInterface.knownInterfaces.update(before_known)
         try:
             parsed = X.getInterfacesFromXML(xml_text, replace)
         except Exception as e:
